@@ -90,18 +90,18 @@ func runAlias[E any](et *etype[E], c ACase) (out pbt.Outcome) {
 	a := buf[c.Off : c.Off+n : c.Off+n+c.Spare]
 	lab := func(l string) { out.Labels = append(out.Labels, "alias:"+c.Op+":"+l) }
 	head := "[" + et.name + "] "
-	view := func(lo, hi int) (sl[E], string) {
+	view := func(lo, hi int) (sl[E], func() string) {
 		switch mod(c.CapMode, 3) {
 		case 0:
-			return buf[lo:hi], fmt.Sprintf("buf[%d:%d]", lo, hi)
+			return buf[lo:hi], func() string { return fmt.Sprintf("buf[%d:%d]", lo, hi) }
 		case 1:
-			return buf[lo:hi:hi], fmt.Sprintf("buf[%d:%d:%d]", lo, hi, hi)
+			return buf[lo:hi:hi], func() string { return fmt.Sprintf("buf[%d:%d:%d]", lo, hi, hi) }
 		}
 		m := (hi + T + 1) / 2
-		return buf[lo:hi:m], fmt.Sprintf("buf[%d:%d:%d]", lo, hi, m)
+		return buf[lo:hi:m], func() string { return fmt.Sprintf("buf[%d:%d:%d]", lo, hi, m) }
 	}
 	capLabel := []string{"view-cap=to-end-of-buffer", "view-cap=len", "view-cap=halfway"}[mod(c.CapMode, 3)]
-	bufDesc := fmt.Sprintf("buf = %d elements at(1..%d)", T, T)
+	bufDesc := func() string { return fmt.Sprintf("buf = %d elements at(1..%d)", T, T) }
 	switch c.Op {
 	case "InsertSlice":
 		idx := mod(c.Index, n+1)
@@ -118,13 +118,15 @@ func runAlias[E any](et *etype[E], c ACase) (out pbt.Outcome) {
 		orig := append([]E(nil), a...)
 		want := append(append(append(make([]E, 0, n+k), orig[:idx]...), given...), orig[idx:]...)
 		s := a
-		call := fmt.Sprintf("%s%s; s = buf[%d:%d:%d] (len %d cap %d); InsertSlice(&s, index=%d, values=%s = %s)", head, bufDesc,
-			c.Off, c.Off+n, c.Off+n+c.Spare, n, n+c.Spare, idx, vdesc, showElems(et, given))
+		call := func() string {
+			return fmt.Sprintf("%s%s; s = buf[%d:%d:%d] (len %d cap %d); InsertSlice(&s, index=%d, values=%s = %s)", head, bufDesc(),
+				c.Off, c.Off+n, c.Off+n+c.Spare, n, n+c.Spare, idx, vdesc(), showElems(et, given))
+		}
 		if p := try(func() { slices.InsertSlice(&s, idx, vals) }); p != nil {
-			return pbt.Fail("%s panicked: %v", call, p)
+			return pbt.Fail("%s panicked: %v", call(), p)
 		}
 		if d := diffT(et, s, want); d != "" {
-			return pbt.Fail("%s: the result is not s[:index] + the values as they were passed + s[index:]: %s (got %s, want %s)", call, d, showElems(et, s), showElems(et, want))
+			return pbt.Fail("%s: the result is not s[:index] + the values as they were passed + s[index:]: %s (got %s, want %s)", call(), d, showElems(et, s), showElems(et, want))
 		}
 		inPlace := k <= c.Spare
 		lab(aliasRelation(idx, lo-c.Off, hi-c.Off, n, inPlace))
@@ -150,7 +152,7 @@ func runAlias[E any](et *etype[E], c ACase) (out pbt.Outcome) {
 		hi := lo + k
 		b, bdesc := view(lo, hi)
 		want := append(append(make([]E, 0, n+k), a...), b...)
-		name := fmt.Sprintf("%s%s; Concat(a = buf[%d:%d:%d], b = %s)", head, bufDesc, c.Off, c.Off+n, c.Off+n+c.Spare, bdesc)
+		name := fmt.Sprintf("%s%s; Concat(a = buf[%d:%d:%d], b = %s)", head, bufDesc(), c.Off, c.Off+n, c.Off+n+c.Spare, bdesc())
 		var r sl[E]
 		if p := try(func() { r = slices.Concat(a, b) }); p != nil {
 			return pbt.Fail("%s panicked: %v", name, p)
@@ -185,7 +187,7 @@ func runAlias[E any](et *etype[E], c ACase) (out pbt.Outcome) {
 		hi := lo + k
 		v, vdesc := view(lo, hi)
 		want := append(make([]E, 0, k), v...)
-		name := fmt.Sprintf("%s%s; Clone(%s)", head, bufDesc, vdesc)
+		name := fmt.Sprintf("%s%s; Clone(%s)", head, bufDesc(), vdesc())
 		var r sl[E]
 		if p := try(func() { r = slices.Clone(v) }); p != nil {
 			return pbt.Fail("%s panicked: %v", name, p)
@@ -223,11 +225,14 @@ func enumerateAlias(shard, shards int, tier string, yield0 func(ACase) bool) {
 			stop = true
 		}
 	}
-	maxLen, maxSpare := 6, 7
-	if tier == "thorough" {
-		maxLen, maxSpare = 8, 9
-	}
 	for _, tn := range []string{"int", "string"} {
+		maxLen, maxSpare := 6, 7
+		if tn == "string" {
+			maxLen, maxSpare = 4, 5
+		}
+		if tier == "thorough" {
+			maxLen, maxSpare = maxLen+2, maxSpare+2
+		}
 		for _, off := range []int{0, 2} {
 			tail := off / 2
 			for n := 0; n <= maxLen; n++ {
@@ -278,7 +283,7 @@ func enumerateAlias(shard, shards int, tier string, yield0 func(ACase) bool) {
 	}
 	for _, tn := range []string{"int", "string", "struct(520B)"} {
 		for _, n := range lens {
-			if tn == "struct(520B)" && n > 1100 {
+			if tn == "struct(520B)" && n > 257 {
 				continue
 			}
 			for _, idx := range uniq([]int{0, 1, n / 3, n / 2, n - 1, n}, n) {
@@ -289,7 +294,7 @@ func enumerateAlias(shard, shards int, tier string, yield0 func(ACase) bool) {
 						continue
 					}
 					k := hi - lo
-					for _, sp := range uniq([]int{0, k - 1, k, k + 1, 2*n + 7}, 1<<30) {
+					for _, sp := range uniq([]int{0, k - 1, k, k + 1, n + k + 7}, 1<<30) {
 						yield(ACase{Type: tn, Op: "InsertSlice", Len: n, Spare: sp, Index: idx, Lo: lo, K: k, CapMode: (lo + sp) % 3})
 					}
 				}
@@ -314,10 +319,10 @@ var specAlias = pbt.Register(&pbt.Spec[ACase]{
 		"Concat(a, b) with a = buf[off:off+len:off+len+spare] and b = ANY view buf[lo:hi:c] of the same buffer (equal to a, overlapping a, starting exactly where a " +
 		"ends i.e. in a's spare capacity, before a, behind a): result = a + b and shares no memory with buf (writing the result up to its capacity changes " +
 		"nothing in buf and vice versa). Clone(buf[lo:hi:c]) likewise. " +
-		"Enumerated part (exhaustive): types int and string; InsertSlice: off in {0, 2}, len 0..6, spare 0..7, every index, every view (lo, hi), 3 view capacities " +
-		"(thorough len <= 8, spare <= 9); Concat/Clone: off 0..1, len 0..4, spare 0..3, tail 0..1, every view, 3 capacities; plus large shapes (int, string, 520-byte struct): " +
+		"Enumerated part (exhaustive): InsertSlice: off in {0, 2}, len 0..6, spare 0..7 on int and len 0..4, spare 0..5 on string, every index, every view (lo, hi), 3 view capacities " +
+		"(thorough: len and spare two more each); Concat/Clone: off 0..1, len 0..4, spare 0..3, tail 0..1, every view, 3 capacities; plus large shapes (int, string, 520-byte struct): " +
 		"len in {31, 32, 33, 100, 255, 256, 257, 1000, 1023, 1024, 1025, 4097} (thorough up to 65537), index in {0, 1, len/3, len/2, len-1, len}, twelve views relative to " +
-		"the index, spare in {0, k-1, k, k+1, 2len+7}. Random part: any of the 18 element types of C12.types, sizes 0..12 (1 in 8: up to 70; 1 in 10: up to 3000 " +
+		"the index, spare in {0, k-1, k, k+1, len+k+7} (the 520-byte struct up to len 257). Random part: any of the 18 element types of C12.types, sizes 0..12 (1 in 8: up to 70; 1 in 10: up to 3000 " +
 		"next to powers of two). non-trivial = (InsertSlice) non-empty values overlapping the slice's own elements; (Concat) both operands non-empty; " +
 		"(Clone) non-empty view strictly inside the buffer",
 	Enum: enumerateAlias,
@@ -375,7 +380,7 @@ var specAlias = pbt.Register(&pbt.Spec[ACase]{
 		c.CapMode = rapid.IntRange(0, 2).Draw(t, "cap_mode")
 		return c
 	},
-	Run: RunAlias, Quick: 40000, Thorough: 120000,
+	Run: RunAlias, Quick: 30000, Thorough: 120000,
 	Replicas: 4, ReplicaEvery: 8,
 })
 
